@@ -36,6 +36,7 @@ type Svc struct {
 	Release      chan struct{} // closed at teardown: hanging requests return
 	IgnoreCtx    bool          // answer from the script even when the caller's context has ended
 	CtxLikeErr   bool          // scripted failures look like a timeout that is not the caller's
+	FailKind     string        // "" | "denied" | "notfound": scripted failures are refusals (wrap api.ErrAccessDenied) or not-found answers
 	MaxReqs      int           // >0: panic when more requests than this arrive (runaway guard)
 	// Served records every value ever handed out, per name.
 	Served map[string]map[string]bool
@@ -242,6 +243,12 @@ func (s *Svc) answer(ctx context.Context, name string, cond bool, old uint32) (*
 		done("fail")
 		if s.CtxLikeErr {
 			return nil, fmt.Errorf("request timed out: %w", context.DeadlineExceeded)
+		}
+		switch s.FailKind {
+		case "denied":
+			return nil, fmt.Errorf("get %q: %w", name, api.ErrAccessDenied)
+		case "notfound":
+			return nil, fmt.Errorf("get %q: %w", name, api.ErrNotFound)
 		}
 		return nil, errSvc
 	case "hang":
